@@ -2,75 +2,149 @@
 {
  "name": "fix_problem_verdict",
  "props": ["C01", "C02"],
- "level": "U/k",
+ "level": "U",
  "tier": "wip",
  "harness": "h_fp_verdict",
+ "enforce_rec": ["fix_problem"],
+ "replace": ["find_problem"],
  "includes": ["e2fsck", "lib/support"],
- "static_keep": ["problem_table", "pr_latch_info", "prompt"],
+ "static_keep": ["pr_latch_info"],
  "unwind": 13,
- "cbmc_flags": ["--unwindset", "fp_setup.0:450,fp_setup.1:16,find_latch.0:13,find_problem.0:450,h_fp_verdict.0:450,fix_problem:2"],
- "unwind_reason": "find_problem / find_latch scan the constant tables problem_table[] (FP_N entries, checked <= 448 by the harness) and pr_latch_info[] (12); the recursion of fix_problem (latch question, PR_AFTER_CODE) is unwound with unwinding assertions on, so the proof also shows that no chain in the real table is deeper than the bound",
- "functions": ["e2fsck/problem.c:fix_problem", "e2fsck/problem.c:find_problem", "e2fsck/problem.c:find_latch"],
- "assumes": ["problem_table[] and pr_latch_info[] keep their initialisers (static_keep): the statement is about the table of the current tree",
-	     "no frame enforcement (fix_problem is recursive over a 2700-line TU): the postcondition is restated as harness CHECKs",
-	     "stubs: ask() behaves as util.c:ask (proved by fsck/ask_options), preenhalt returns iff not preening, fatal_error never returns, print_e2fsck_message only prints, e2fsck.conf lookups return arbitrary values",
-	     "mid-run state: every entry may already be configured with arbitrary configurable bits / counters, latches carry arbitrary PRL_* flags"],
+ "unwind_reason": "fix_problem is loop-free; find_latch scans the constant table pr_latch_info[] (11 latches + terminator, kept with its initialiser); the harness set-up loops over the same 11 latches; the two recursive calls of fix_problem are replaced by its own contract (--enforce-contract-rec)",
+ "functions": ["e2fsck/problem.c:fix_problem", "e2fsck/problem.c:find_latch", "e2fsck/problem.c:reconfigure_bool"],
+ "assumes": ["the row of problem_table[] under test is ARBITRARY (any prompt <= PROMPT_NULL, any flags, any second code, configured or not) subject to the table facts FP_FACT_SANE / FP_FACT_AFTER, which fsck/find_problem_contract proves of every row of the real table",
+	     "find_problem is replaced by an abstract contract (fp_common.h): the row of the code under test is the ghost row, the row of any other code is a fresh object with arbitrary contents satisfying the same table facts; fsck/find_problem_contract proves the concrete counterpart on the real table; modelling 'another row of the table' by a fresh object is a manual abstraction step",
+	     "stubs: ask() behaves as util.c:ask (proved by fsck/ask_options), preenhalt returns iff not preening, fatal_error never returns, print_e2fsck_message/printf/fprintf only print, e2fsck.conf look-ups return arbitrary values (every [problems] override)",
+	     "mid-run state: options, ctx->flags, fs->flags arbitrary; latches carry arbitrary PRL_* flags subject to the two run invariants named in the contract (no latch says yes under -n; no latch says no under a plain -y without force_no/no_default overrides)",
+	     "fewer than 2^31 reports of one problem code per run (count++)",
+	     "statement is about RETURNING calls: PR_FATAL, PROMPT_ABORT+yes and preenhalt end the process"],
+ "backend": "cadical",
+ "native": false
+}
+*/
+/* VERIF-UNIT
+{
+ "name": "fix_problem_yes",
+ "props": ["C01"],
+ "level": "U",
+ "tier": "wip",
+ "harness": "h_fp_yes",
+ "enforce_rec": ["fix_problem"],
+ "replace": ["find_problem"],
+ "includes": ["e2fsck", "lib/support"],
+ "static_keep": ["pr_latch_info"],
+ "unwind": 13,
+ "unwind_reason": "as fix_problem_verdict",
+ "functions": ["e2fsck/problem.c:fix_problem"],
+ "assumes": ["as fix_problem_verdict, and: e2fsck.conf has no [problems] overrides (look-ups return defaults), so rows keep the compiled-in PR_FORCE_NO / PR_NO_DEFAULT / PR_PREEN_NO bits, for which FP_FACT_NOCONF is proved on the real table by fsck/find_problem_contract",
+	     "plain -y: E2F_OPT_YES without E2F_OPT_NO / E2F_OPT_PREEN (unix.c refuses the combinations)"],
  "backend": "cadical",
  "native": false
 }
 */
 /*
- * fix_problem (e2fsck/problem.c): the single gate every detected problem goes through.
- *
- * From the property texts (C01/C02 anchors): "answering 'no' to a problem without PR_NO_OK un-marks the fs valid",
- * "exit status is assembled from the 'valid' flag and E2F_FLAG_PROBLEMS_FIXED".  unix.c:main builds FSCK_UNCORRECTED
- * from !ext2fs_test_valid(fs) and FSCK_NONDESTRUCT from ctx->flags & E2F_FLAG_PROBLEMS_FIXED.
+ * fix_problem (e2fsck/problem.c): the single gate every detected problem goes through.  Contract and its derivation
+ * from the property texts: fp_common.h (FP_FIX_CONTRACT).  The harness CHECKs restate V1-V4 over the harness's own
+ * copies of the pre-state, so they do not depend on the ENSURES clauses being the ones enforced.
  */
+#define FP_FIND_ABSTRACT
+#define FP_FIX_CONTRACT
 #include "fp_common.h"
 
-/* V1 + V2 + frame: for EVERY table entry, every option set, every e2fsck.conf, every mid-run state.
- * The entry is enumerated (constant index per copy) so that the symbolic executor sees constant table rows. */
-static void fp_verdict_one(struct fp_world *w, unsigned i)
+static void fp_row_kept(const struct e2fsck_problem *e, const struct in_row *r0)
 {
-	struct e2fsck_problem *e = &problem_table[i];
-	int r;
-
-	r = fix_problem(w->ctx, e->e2p_code, &w->pctx);
-
-	/* reached only if fix_problem returned (PR_FATAL / PROMPT_ABORT+yes / preenhalt do not) */
-	CHECK(r == 0 || r == 1 || r == -1, "answer is no / yes / no-collate");
-	if (r == 0 && e->prompt != PROMPT_NONE && !(e->flags & PR_NO_OK)) {
-		REACH("declined a problem that counts");
-		CHECK(!(w->fs->flags & EXT2_FLAG_VALID),
-		      "V1: a declined problem whose entry lacks PR_NO_OK un-marks the filesystem valid (=> FSCK_UNCORRECTED)");
-	}
-	if (r != 0 && e->prompt != PROMPT_NONE && !(e->flags & PR_NOT_A_FIX)) {
-		REACH("accepted a fix");
-		CHECK(w->ctx->flags & E2F_FLAG_PROBLEMS_FIXED,
-		      "V2: an accepted fix sets E2F_FLAG_PROBLEMS_FIXED unless the entry is PR_NOT_A_FIX");
-	}
-	/* frame of the verdict state */
-	CHECK((w->fs->flags | EXT2_FLAG_VALID) == (IN.fsflags | EXT2_FLAG_VALID) &&
-	      (!(IN.fsflags & EXT2_FLAG_VALID) ? !(w->fs->flags & EXT2_FLAG_VALID) : 1),
-	      "fs->flags: only EXT2_FLAG_VALID may change, and only be cleared");
-	CHECK((w->ctx->flags | E2F_FLAG_PROBLEMS_FIXED) == (IN.ctxflags | E2F_FLAG_PROBLEMS_FIXED) &&
-	      ((IN.ctxflags & E2F_FLAG_PROBLEMS_FIXED) ? (w->ctx->flags & E2F_FLAG_PROBLEMS_FIXED) != 0 : 1),
-	      "ctx->flags: only E2F_FLAG_PROBLEMS_FIXED may change, and only be set");
-	CHECK(w->ctx->options == IN.options, "options unchanged");
+	CHECK(e->e2p_code == r0->code && e->prompt == r0->prompt && e->second_code == r0->second &&
+	      (e->flags & ~(FPV_CONFIGURABLE | PR_CONFIG)) == (r0->flags & ~(FPV_CONFIGURABLE | PR_CONFIG)),
+	      "R: code, prompt, second code and the non-configurable flags of a row are never written");
+	CHECK(!(r0->flags & PR_CONFIG) || e->flags == r0->flags, "R: a configured row keeps its flags");
 }
 
+static void fp_restate(struct fp_world *w, int r)
+{
+	struct e2fsck_problem *e = fp_kp;
+
+	CHECK(r == 0 || r == 1 || r == -1, "answer is no / yes / no-collate");
+	fp_row_kept(fp_kp, &IN.k);
+	fp_row_kept(fp_op, &IN.o);
+	CHECK((w->fs->flags | EXT2_FLAG_VALID) == (IN.fsflags | EXT2_FLAG_VALID) &&
+	      ((IN.fsflags & EXT2_FLAG_VALID) || !(w->fs->flags & EXT2_FLAG_VALID)),
+	      "F1: fs->flags: only EXT2_FLAG_VALID may change, and only be cleared");
+	CHECK((w->ctx->flags | E2F_FLAG_PROBLEMS_FIXED) == (IN.ctxflags | E2F_FLAG_PROBLEMS_FIXED) &&
+	      (!(IN.ctxflags & E2F_FLAG_PROBLEMS_FIXED) || (w->ctx->flags & E2F_FLAG_PROBLEMS_FIXED)),
+	      "F2: ctx->flags: only E2F_FLAG_PROBLEMS_FIXED may change, and only be set");
+	CHECK(w->ctx->options == IN.options, "options unchanged");
+	if (IN.code != IN.k.code)
+		return;		/* V1, V2 are statements about the row of the code that was raised */
+	if (r == 0 && e->prompt != PROMPT_NONE && !(e->flags & PR_NO_OK)) {
+		CHECK(!(w->fs->flags & EXT2_FLAG_VALID),
+		      "V1: a declined problem whose row lacks PR_NO_OK un-marks the filesystem valid (=> FSCK_UNCORRECTED)");
+	}
+	if (r != 0 && e->prompt != PROMPT_NONE && !(e->flags & PR_NOT_A_FIX)) {
+		CHECK(w->ctx->flags & E2F_FLAG_PROBLEMS_FIXED,
+		      "V2: an accepted fix sets E2F_FLAG_PROBLEMS_FIXED unless the row is PR_NOT_A_FIX");
+	}
+}
+
+/* every option set, every e2fsck.conf, every row, every mid-run state */
 void h_fp_verdict(void)
 {
 	struct fp_world w;
-	unsigned i;
+	struct e2fsck_problem *e;
+	int r;
 
 	LOAD_IN();
+	fp_conf_mode = FP_CONF_ANY;
+	fp_facts = 0;
 	fp_setup(&w);
-	ASSUME(IN.idx < FP_N - 1);
-	for (i = 0; i < FP_N - 1; i++)
-		if (i == IN.idx) {
-			fp_verdict_one(&w, i);
-			REACH("end");
-			return;
-		}
+	fp_arbitrary_rows();
+	e = fp_kp;
+	/* run invariant of e2fsck -n (initially all latch flags are 0; V3 shows it is kept) */
+	ASSUME(!(IN.options & E2F_OPT_NO) || FP_NO_LATCH(PRL_YES));
+
+	r = fix_problem(w.ctx, IN.code, &w.pctx);
+
+	fp_restate(&w, r);
+	if (IN.code == IN.k.code && r == 0 && e->prompt != PROMPT_NONE && !(e->flags & PR_NO_OK))
+		REACH("declined a problem that counts");
+	if (IN.code == IN.k.code && r != 0 && e->prompt != PROMPT_NONE && !(e->flags & PR_NOT_A_FIX))
+		REACH("accepted a fix");
+	if (IN.code != IN.k.code)
+		REACH("a code other than the one under test");
+	if (IN.options & E2F_OPT_NO) {
+		REACH("-n");
+		CHECK(r != 1, "V3: under E2F_OPT_NO no problem is answered yes");
+		CHECK(IN.code != IN.k.code || e->prompt == PROMPT_NONE || (e->flags & PR_AFTER_CODE) || r == 0,
+		      "V3: under E2F_OPT_NO every question is answered no");
+		CHECK(FP_NO_LATCH(PRL_YES), "V3: under E2F_OPT_NO no latch enters the yes state");
+	}
+	REACH("end");
+}
+
+/* plain -y, no e2fsck.conf overrides */
+void h_fp_yes(void)
+{
+	struct fp_world w;
+	struct e2fsck_problem *e;
+	int r;
+
+	LOAD_IN();
+	fp_conf_mode = FP_CONF_NONE;
+	fp_facts = 1;
+	fp_setup(&w);
+	fp_arbitrary_rows();
+	e = fp_kp;
+	ASSUME(FP_YESMODE(IN.options));
+	ASSUME(FP_NO_LATCH(PRL_NO));	/* run invariant of e2fsck -y (initially all latch flags are 0; V4 shows it is kept) */
+
+	r = fix_problem(w.ctx, IN.code, &w.pctx);
+
+	fp_restate(&w, r);
+	CHECK(r != 0, "V4: under a plain -y nothing is answered no");
+	if (IN.code == IN.k.code && e->prompt != PROMPT_NONE && !(e->flags & PR_AFTER_CODE)) {
+		REACH("-y question");
+		CHECK(r == 1, "V4: under a plain -y every question is answered yes");
+		CHECK(w.ctx->flags & E2F_FLAG_PROBLEMS_FIXED || (e->flags & PR_NOT_A_FIX), "V4+V2: ... and counted as a fix");
+	}
+	CHECK(FP_NO_LATCH(PRL_NO), "V4: under a plain -y no latch enters the no state");
+	REACH("end");
 }
